@@ -118,6 +118,7 @@ type FuncSpec struct {
 	Used      bool
 	Fresh     bool // result is a freshly allocated reference
 	Holds     []HoldDecl
+	Helper    bool // internal helper: type invariants are neither assumed nor checked at its boundary
 }
 
 type TypeSpec struct {
@@ -598,7 +599,7 @@ var clauseKeywords = map[string]bool{
 	"pred": true, "fun": true, "lemma": true, "ghost": true, "func": true, "extern": true, "type": true,
 	"callspec": true, "requires": true, "ensures": true, "modifies": true, "pure": true, "function": true, "inline": true,
 	"trusted": true, "loop": true, "before": true, "sweep": true, "guarded": true, "final": true, "atomic": true,
-	"confined": true, "private": true, "holds": true, "hb-by-channel": true, "invariant": true, "ctor": true, "params": true, "fresh": true, "end": true,
+	"confined": true, "private": true, "holds": true, "helper": true, "hb-by-channel": true, "invariant": true, "ctor": true, "params": true, "fresh": true, "end": true,
 }
 
 type rawClause struct {
@@ -862,6 +863,10 @@ func parseSpecFile(path string, pkgPath string) (*SpecFile, error) {
 		case "fresh":
 			if f := target(); f != nil {
 				f.Fresh = true
+			}
+		case "helper":
+			if curF != nil {
+				curF.Helper = true
 			}
 		case "holds":
 			f := target()
